@@ -93,6 +93,13 @@ fn check(rep: &Report, acc: &mut Acc, d: &Desc, rank: u64, total_consistent_with
                     EncOut::Completed(n) if b[..n.min(b.len())] == bytes[..] => {}
                     other => viol(rep, &format!("C20|generate-vs-encapsulator|{}|after-refused-calls|{}", kn, other.class()), rank, format!("an encapsulator that sent another label and then refused calls with this label answers {:?} ({}) where the full-label packet {} is due", other, hexs(&b[..other.len().unwrap_or(0).min(b.len()).min(24)]), hexs(&bytes[..bytes.len().min(24)])), d),
                 }
+                // ... and after this label, re-use off, another label, re-use on again
+                let mut enc = crate::sender::build_prior(DefaultCrc {}, crate::sender::Prior::SameOffOtherOn, l);
+                let mut b = vec![0u8; want.len() + 3];
+                match do_encap(&mut enc, &d.payload, 0, d.type_field, l, &mut b) {
+                    EncOut::Completed(n) if b[..n.min(b.len())] == bytes[..] => {}
+                    other => viol(rep, &format!("C20|generate-vs-encapsulator|{}|after-off-other-on|{}", kn, other.class()), rank, format!("an encapsulator that sent this label, then another label while re-use was switched off, answers {:?} after re-use is switched on again, where the description says {}", other, hex(&bytes)), d),
+                }
                 let mut enc = crate::sender::build_prior(DefaultCrc {}, crate::sender::Prior::SameAtMax, l);
                 let mut b = vec![0u8; want.len() + 3];
                 match do_encap(&mut enc, &d.payload, 0, d.type_field, l, &mut b) {
